@@ -139,7 +139,11 @@ func canSafelyNarrowSigned[To constraints.Integer](val int64) bool {
 	case int64:
 		return true // trivially true (identity conversion)
 	}
-	return false // this should be unreachable
+	// To is a defined type (e.g. a proto enum): no case above matches its
+	// underlying type. The conversion is safe when it can be undone and keeps
+	// the sign.
+	to := To(val)
+	return int64(to) == val && (to < 0) == (val < 0)
 }
 
 // canSafelyNarrowUnsigned tests whether the supplied val can be converted into 'To'
@@ -172,5 +176,9 @@ func canSafelyNarrowUnsigned[To constraints.Integer](val uint64) bool {
 	case int64:
 		return val <= math.MaxInt64
 	}
-	return false // this should be unreachable
+	// To is a defined type (e.g. a proto enum): no case above matches its
+	// underlying type. The conversion is safe when it can be undone and keeps
+	// the sign.
+	to := To(val)
+	return uint64(to) == val && to >= 0
 }
